@@ -172,38 +172,38 @@ def policy(ctx: Context) -> None:
         "self.random_generator.choice(np.arange(self.n_actions), 1)[0]", "self.random_generator.choice(np.arange(self.n_actions))",
         "self.random_generator.integers(self.n_actions)", "self.random_generator.integers(0, self.n_actions)", "self.random_generator.choice(self.n_actions)")}
     u_draw = str(nn.rat(parse_expr("self.random_generator.random()")))
-    tests = [t for t in g.live if t.kind == "test"]
-    for r in rets:
-        v = r.value
-        ok = isinstance(v, ast.Call) and dotted(v.func) == "int" and len(v.args) == 1
-        ctx.check(ok, "R3.int", "MABEpsilonGreedy.policy:return-int", "returns a Python int", f"returns `{src(v)}`", f, r)
-        inner = v.args[0] if ok else v
-        rn = g.nodes_of(r)[0]
-        evs = reaching_events(g, inner.id, rn) if isinstance(inner, ast.Name) else []
-        if not evs:
-            ctx.fail("R3.choice", "MABEpsilonGreedy.policy:action-defs", f"cannot trace the returned action `{src(inner)}`", f, r)
+    # Path-sensitive reading: per acyclic path, the decisions (locals substituted forward, so `random_e` reads as the draw itself) and the returned value.
+    from types import SimpleNamespace
+
+    from ..util import path_summaries
+    n0 = normaliser(prog, f, inline_locals=False)
+    kinds = set()
+    n_paths = 0
+    for ps in path_summaries(f, g):
+        if ps.ends != "return":
             continue
-        kinds = set()
-        for node, kind, a in evs:
-            if kind != "assign":
-                ctx.fail("R3.choice", f"MABEpsilonGreedy.policy:action-def:{kind}", f"the action is modified by `{src(a)[:60]}`", f, a)
-                continue
-            val = str(n.rat(a.value))  # type: ignore[union-attr]
-            deps = [(t, lab) for t, lab in g.control_closure(node) if t.kind == "test"]
-            if val == greedy:
-                kinds.add("greedy")
-                want_lab = _greedy_label(n, nn, deps, u_draw)
-                ctx.check(want_lab is True, "R3.greedy-edge", "MABEpsilonGreedy.policy:greedy-condition",
-                          "greedy exactly when NOT (u < eps), u ~ own generator in [0,1): eps = 0 is always greedy",
-                          f"the greedy branch is taken under {[(src(t.ast), lab) for t, lab in deps]}", f, a)
-            elif val in explore:
-                kinds.add("explore")
-                want_lab = _greedy_label(n, nn, deps, u_draw)
-                ctx.check(want_lab is False, "R3.explore-edge", "MABEpsilonGreedy.policy:explore-condition", "explores exactly when u < eps",
-                          f"the exploring branch is taken under {[(src(t.ast), lab) for t, lab in deps]}", f, a)
-            else:
-                ctx.fail("R3.choice", "MABEpsilonGreedy.policy:action-value", f"the action can be `{val[:100]}`: neither argmax(Q) nor a uniform draw over range(n_actions)", f, a)
-        ctx.check(kinds == {"greedy", "explore"}, "R3.choice", "MABEpsilonGreedy.policy:both-branches", "both a greedy and an exploring branch exist", f"branches found: {sorted(kinds)}", f, r)
+        n_paths += 1
+        v = ps.ret
+        ok = isinstance(v, ast.Call) and dotted(v.func) == "int" and len(v.args) == 1
+        ctx.check(ok, "R3.int", "MABEpsilonGreedy.policy:return-int", "returns a Python int", f"returns `{src(v)[:80]}`", f, rets[0])
+        inner = v.args[0] if ok else v
+        val = str(n0.rat(inner))
+        deps = [(SimpleNamespace(ast=t), lab) for t, lab in ps.decisions]
+        if val == greedy:
+            kinds.add("greedy")
+            want_lab = _greedy_label(n0, n0, deps, u_draw)
+            ctx.check(want_lab is True, "R3.greedy-edge", "MABEpsilonGreedy.policy:greedy-condition",
+                      "greedy exactly when NOT (u < eps), u ~ own generator in [0,1): eps = 0 is always greedy",
+                      f"the greedy action is returned on the path [{ps.text()}]", f, rets[0], [ps.text()])
+        elif val in explore:
+            kinds.add("explore")
+            want_lab = _greedy_label(n0, n0, deps, u_draw)
+            ctx.check(want_lab is False, "R3.explore-edge", "MABEpsilonGreedy.policy:explore-condition", "explores exactly when u < eps",
+                      f"the exploring action is returned on the path [{ps.text()}]", f, rets[0], [ps.text()])
+        else:
+            ctx.fail("R3.choice", "MABEpsilonGreedy.policy:action-value", f"on the path [{ps.text()}] the action is `{val[:100]}`: neither argmax(Q) nor a uniform draw over range(n_actions)", f, rets[0], [ps.text()])
+    ctx.notes["policy_paths"] = n_paths
+    ctx.check(kinds == {"greedy", "explore"}, "R3.choice", "MABEpsilonGreedy.policy:both-branches", "both a greedy and an exploring branch exist", f"branches found: {sorted(kinds)}", f, rets[0])
     # randomness only from the agent's own generator
     for c in calls_in(f.node):
         if isinstance(c.func, ast.Attribute) and c.func.attr in ("random", "choice", "integers", "uniform", "rand", "randint", "shuffle", "permutation"):
